@@ -57,6 +57,14 @@ def record_param(rec, pname):
     return None
 
 
+FLIP = {'1': '2', '2': '1'}
+
+
+def _transposed(fn, node):
+    """odd number of transpose() / adjoint() applications inside the expression"""
+    return sum(1 for y in fn.walk(node['id']) if y['k'] == 'CXXMemberCallExpr' and y.get('callee') in ('transpose', 'adjoint')) % 2 == 1
+
+
 def triangle_threading(ctx, rule='triangle-option-reaches-every-use'):
     for w in TRI_WRAPPERS:
         recs = ctx.F.records_of('Spectra::' + w, dep=False)
@@ -76,14 +84,21 @@ def triangle_threading(ctx, rule='triangle-option-reaches-every-use'):
                 for x in fn.walk():
                     if x['k'] == 'CXXMemberCallExpr' and x.get('callee') in TRI_METHODS and x.get('org') == 'E':
                         ta = x.get('targs') or ['?']
-                        uses.append(('%s: %s<.>' % (fn.name, x['callee']), ta[0]))
+                        obj = fn.nodes[fn.nodes[x['c'][0]]['c'][0]] if x.get('c') and fn.nodes[x['c'][0]].get('c') else None
+                        if obj is not None and _transposed(fn, obj):
+                            uses.append(('%s: %s<.> of a TRANSPOSED view (reads the opposite triangle of the stored matrix)' % (fn.name, x['callee']), FLIP.get(ta[0], '?')))
+                        else:
+                            uses.append(('%s: %s<.>' % (fn.name, x['callee']), ta[0]))
                     if x['k'] in ('CXXMemberCallExpr', 'CXXConstructExpr', 'CXXTemporaryObjectExpr') and (
                             (x.get('callee') == 'compute' and x.get('cls') == 'Spectra::BKLDLT') or x.get('ctor_of') == 'Spectra::BKLDLT'):
                         args = fn.call_args(x)
                         if len(args) >= 2:
                             a = fn.strip(args[1]) if args[1]['k'] != 'SubstNonTypeTemplateParmExpr' else args[1]
                             cv = args[1].get('cval') or (a.get('cval') if a else None)
-                            uses.append(('%s: BKLDLT uplo argument' % fn.name, cv if cv is not None else '?'))
+                            if _transposed(fn, args[0]):
+                                uses.append(('%s: BKLDLT uplo argument with a TRANSPOSED matrix argument (reads the opposite triangle of the stored matrix)' % fn.name, FLIP.get(cv, '?')))
+                            else:
+                                uses.append(('%s: BKLDLT uplo argument' % fn.name, cv if cv is not None else '?'))
                     if x['k'] == 'DeclStmt':
                         for d in x.get('decls', []):
                             if 'var' in d:
